@@ -178,6 +178,31 @@ def replay_state(ctx, st, f):
     return obs
 
 
+def refused_then_sent(ctx):
+    """send() when the node refuses a first injection for a reason of its own (gas exhausted because the state moved on, a full mempool): whatever the client
+    does next - give up or try again - every operation that reaches the node pays the node's minimum for the limits it carries."""
+    from ..opclient import add_content, make_client, make_key
+    for key_kind in ('tz1', 'tz2'):
+        for kind in ('transaction', 'transaction_kt', 'origination'):
+            for refusal in ('proto.024-PtTALLiN.gas_exhausted.operation', 'proto.024-PtTALLiN.gas_exhausted.block', 'node.mempool.rejected_by_full_mempool', 'node.prevalidation.oversized_operation'):
+                for mg in (1000000, 3456789, 20000000):
+                    client, node = make_client(make_key(key_kind), chain_ctr=10)
+                    node.inject_refusals = [refusal]
+                    node.sim_script.append([{'consumed_milligas': mg, 'paid_storage_size_diff': 10}])
+                    case = {'refused_then_sent': True, 'key': key_kind, 'kind': kind, 'refusal': refusal, 'milligas': mg}
+                    try:
+                        add_content(client, kind, 0).send()
+                    except Exception:   # noqa: giving up is fine
+                        pass
+                    ctx.count(('refused', key_kind, kind, refusal, mg), nontrivial=True)
+                    ctx.replayed += 1
+                    for rec in node.injections:
+                        if rec.get('decoded') and not rec['fee_ok']:
+                            ctx.mismatch('C24:operation-reached-node-underpaid:after-refusal', 'send() of a %s by %s, first injection refused with %s: an operation reached the node with fee %d for %d bytes and gas limit %d (minimum %d)' % (
+                                kind, key_kind, refusal, rec['fee'], rec['size'], rec['gas'], -(-(100000 + 1000 * rec['size'] + 100 * rec['gas']) // 1000)), case)
+                            break
+
+
 def run(ctx):
     ctx.rule = ('Leg A: OpFees.tla (fee computation as coded + the node\'s minimal-fee rule) for every batch over the kind pool x key kind x '
                 'fill/autofill x simulated consumption; Leg B: every scenario is run through the real fill()/autofill() against FakeNode, '
@@ -212,6 +237,7 @@ def run(ctx):
                 ctx.sample({'kinds': st['kinds'], 'key': st['keyKind'], 'mode': st['mode'], 'sim': st['simIx'], 'fee': sum(obs['fees']),
                             'gas': sum(obs['gases']), 'signed_size': obs['size'], 'class': cls}, limit=6)
     ctx.exhaustive = True
+    refused_then_sent(ctx)
     f = fam('ideal', 2)
     r = ctx.tlc('OpFees', CFG % f + INV_IDEAL, name='OpFees-ideal', workers=1, timeout=600, coverage=False)
     ctx.extra['ideal_invariant_on_as_coded_computation'] = {'violated': r.violation}
@@ -222,6 +248,9 @@ def run(ctx):
 
 def replay(ctx, rep):
     c = rep['case']
+    if c.get('refused_then_sent'):
+        refused_then_sent(ctx)
+        return report_replay(ctx, rep)
     m = c['model']
     st = {'kinds': tuple(c['kinds']), 'keyKind': c['key'], 'mode': c['mode'], 'simIx': tuple(c['sim']), 'chain': c['chain'],
           'out': dict(m, fees=tuple(m['fees']), gases=tuple(m['gases']), storages=tuple(m['storages']), counters=tuple(m['counters']))}
